@@ -38,6 +38,11 @@ import (
 // only in their own session, and don't pollute the base mapping and cause
 // unintended behavior in codec activity elsewhere in the program.
 type Session struct {
+	// Types this session generated itself, in order, so that everything cached
+	// during a generation that ends up failing can be withdrawn again.
+	generatedMutex sync.Mutex
+	generated      []reflect.Type
+
 	builderGenerators sync.Map
 	config            *configuration.Configuration
 }
@@ -112,6 +117,9 @@ func (_this *Session) GetBuilderGeneratorForType(dstType reflect.Type) BuilderGe
 		simYield("bld:ph-enter")
 		wg.Wait()
 		simYield("bld:ph-woke")
+		if builderGenerator == nil {
+			panic(fmt.Errorf("cannot build objects of type %v", dstType))
+		}
 		return builderGenerator(ctx)
 	}))
 	if loaded {
@@ -120,17 +128,57 @@ func (_this *Session) GetBuilderGeneratorForType(dstType reflect.Type) BuilderGe
 	}
 	simYield("bld:installed")
 
+	generatedMark := _this.markGenerated()
+	defer func() {
+		if builderGenerator == nil {
+			// Generation failed (unsupported type). Remove the placeholder and
+			// release anyone waiting on it, otherwise every later use of this
+			// type on this session blocks forever.
+			_this.builderGenerators.Delete(dstType)
+			// Also withdraw what was cached on the way (e.g. the pointer-to-T
+			// generator made while generating T): it is bound to this dead
+			// placeholder, and leaving it behind would let later lookups of
+			// types built on it succeed where a fresh session fails.
+			_this.withdrawGeneratedSince(generatedMark)
+			wg.Done()
+		}
+	}()
 	builderGenerator = _this.defaultBuilderGeneratorForType(dstType)
 	simYield("bld:generated")
 	wg.Done()
 	simYield("bld:done")
 	_this.builderGenerators.Store(dstType, builderGenerator)
+	_this.noteGenerated(dstType)
 	simYield("bld:stored")
 	return builderGenerator
 }
 
 // ============================================================================
 // Internal
+
+func (_this *Session) markGenerated() int {
+	_this.generatedMutex.Lock()
+	defer _this.generatedMutex.Unlock()
+	return len(_this.generated)
+}
+
+func (_this *Session) noteGenerated(t reflect.Type) {
+	_this.generatedMutex.Lock()
+	defer _this.generatedMutex.Unlock()
+	_this.generated = append(_this.generated, t)
+}
+
+func (_this *Session) withdrawGeneratedSince(mark int) {
+	_this.generatedMutex.Lock()
+	defer _this.generatedMutex.Unlock()
+	if mark > len(_this.generated) {
+		mark = len(_this.generated)
+	}
+	for _, t := range _this.generated[mark:] {
+		_this.builderGenerators.Delete(t)
+	}
+	_this.generated = _this.generated[:mark]
+}
 
 func (_this *Session) defaultBuilderGeneratorForType(dstType reflect.Type) BuilderGenerator {
 	switch dstType.Kind() {
